@@ -82,7 +82,7 @@ def gen_bprogs(ctx):
 class Run:
     """One invocation of the driver; remembers its arguments so that a single job can be regenerated (replay files)."""
 
-    def __init__(self, ctx, name, vectors=None, bprogs=None, mutations=0, fixtures=True, formats=None, timeout=30, bombs=False):
+    def __init__(self, ctx, name, vectors=None, bprogs=None, mutations=0, fixtures=True, formats=None, timeout=3, bombs=False):
         self.ctx, self.name = ctx, name
         self.trace = ctx.path(f"trace_{name}.ndjson")
         self.jobs = jobs()
@@ -106,7 +106,10 @@ class Run:
         d = lib.run_driver(DRV, ["--out", self.trace, "--tmp", ctx.path(f"tmp_{self.name}")] + self.args, env=self.env, timeout=timeout)
         self.info = {k: v for k, v in d.items() if k not in ("stdout", "stderr_tail")}
         ctx.stage("run", source=self.name, programs=d.get("programs"), events=d.get("events"), by_src=d.get("by_src"),
-                  outcomes=d.get("outcomes"), round_trips=d.get("rt"), reruns=d.get("reruns"), not_reproduced=d.get("flaky"), wall_s=d["wall_s"])
+                  outcomes=d.get("outcomes"), round_trips=d.get("rt"), reruns=d.get("reruns"), not_reproduced=d.get("flaky"),
+                  confirmed_hangs=d.get("hangs"), skipped_after_hangs=d.get("skipped"), wall_s=d["wall_s"])
+        ctx.cov["confirmed_hangs"] = d.get("hangs")
+        ctx.cov["inputs_skipped_after_hangs"] = d.get("skipped")
         if not d.get("programs"):
             raise lib.ToolError("driver executed nothing")
         return d
@@ -163,7 +166,7 @@ def classify(ctx, verdict, run, source, what_of, max_reports=8, group_of=None):
 def replay(ctx, module, kd, stride=None, boundary=None):
     obj = json.load(open(ctx.replay))
     trace = ctx.path("replay_trace.ndjson")
-    d = lib.run_driver(DRV, ["--replay", ctx.replay, "--out", trace, "--tmp", ctx.path("tmp_replay"), "--timeout", 30],
+    d = lib.run_driver(DRV, ["--replay", ctx.replay, "--out", trace, "--tmp", ctx.path("tmp_replay"), "--timeout", 5],
                        env={"VERIF_SEED": ctx.seed, "VERIF_REPO": lib.REPO})
     cfg = ctx.path("t_replay.cfg")
     consts = {"KnownDeviations": lib.tla_set(kd)}
